@@ -90,6 +90,23 @@ fn s_params(t: &mut Tape, ctx: &mut Ctx) -> Result<(), Failure> {
                 }
                 let i = t.index(args.len());
                 let (n, v, ty) = args[i].clone();
+                // a third of the time: the same value at a type that differs only where the value
+                // shows nothing (payload of None, absent side of an Either, element type of an empty list)
+                if t.index(3) == 0 {
+                    if let Some(other) = valgen::evidence_free_retype(t, &v, &ty) {
+                        args[i] = (n, v, other);
+                        expect_err = true;
+                        ctx.label("args:same-value-other-type");
+                        ctx.evals(1);
+                        let aj = json!(args.iter().map(|(n, v, ty)| format!("{n} = {}: {ty}", render::val_text(v, ty))).collect::<Vec<_>>());
+                        let inst = pipe::instantiate(&tmpl, conv::arguments(&args), debug).map_err(|p| Failure::new(format!("panic:{}", crate::run::panic_site(&p)), format!("instantiate panicked: {p}\n{}", truncate(&text, 2500))))?;
+                        if inst.is_ok() && expect_err {
+                            return Err(Failure::new("c12:bad-arguments-accepted", format!("instantiate accepts an argument whose declared type differs from the parameter's type (the value itself fits both)\n--- arguments ---\n{aj}\n{}", truncate(&text, 2500))).with(json!({"program": text, "arguments": aj})));
+                        }
+                        ctx.label("instantiate:rejected-as-expected");
+                        continue;
+                    }
+                }
                 let same_layout = t.bool();
                 let other = if same_layout { cast_partner(t, &ty) } else { Some(valgen::gen_ty(t, &TyCfg::SMALL, 1)) };
                 let Some(other) = other else { continue };
@@ -233,8 +250,55 @@ fn s_two_types(t: &mut Tape, ctx: &mut Ctx) -> Result<(), Failure> {
     }
 }
 
+/// A parameter that only a function defined *after* `main` reads (nothing calls it): it is part of
+/// the template all the same, so `parameters()` lists it and `instantiate` wants it.
+fn s_after_main(t: &mut Tape, ctx: &mut Ctx) -> Result<(), Failure> {
+    let with_params = t.bool();
+    let g = gen::generate(t, GenCfg { params: with_params, ..GenCfg::small() });
+    let ty = valgen::gen_ty(t, &TyCfg::SMALL, 1);
+    let val = valgen::gen_val(t, &ty);
+    let name = "LATE".to_string();
+    let mut prog = g.prog.clone();
+    let use_twice = t.bool();
+    let mut stmts = vec![Stmt::Let(Pat::Ignore, ty.clone(), Expr::Param(name.clone()))];
+    if use_twice {
+        stmts.push(Stmt::Let(Pat::Ignore, ty.clone(), Expr::Param(name.clone())));
+    }
+    prog.items.push(Item::Fn(FnDef { name: "defined_after_main".into(), params: vec![], ret: None, body: Expr::Block(stmts, None) }));
+    let style = Style::from_seed(t.next() as u64);
+    let text = render::render(&prog, &style);
+    ctx.evals(1);
+    let tmpl = match pipe::new_template(&text) {
+        Ok(Ok(tm)) => tm,
+        Ok(Err(e)) => return Err(Failure::new("c12:rejected", format!("a well-typed program with a function after main is rejected: {}\n{}", pipe::last_line(&e), truncate(&text, 2500))).with(json!({"program": text}))),
+        Err(p) => return Err(Failure::new(format!("panic:{}", crate::run::panic_site(&p)), format!("TemplateProgram::new panicked: {p}"))),
+    };
+    let reported: BTreeMap<String, String> = tmpl.parameters().iter().map(|(n, ty)| (n.as_inner().to_string(), conv::from_resolved(ty).to_string())).collect();
+    if reported.get(&name) != Some(&ty.to_string()) {
+        return Err(Failure::new("c12:parameters-differ", format!("`param::{name}` of type {ty} is read in a function defined after main; parameters() reports {reported:?}\n{}", truncate(&text, 2500))).with(json!({"program": text})));
+    }
+    // without it: Err; with it: Ok
+    let base: Vec<(String, Val, Ty)> = g.params.clone();
+    ctx.evals(1);
+    let without = pipe::instantiate(&tmpl, conv::arguments(&base), false).map_err(|p| Failure::new(format!("panic:{}", crate::run::panic_site(&p)), format!("instantiate panicked: {p}")))?;
+    if without.is_ok() {
+        return Err(Failure::new("c12:bad-arguments-accepted", format!("instantiate succeeds although the argument for `param::{name}` (read in a function after main) is missing\n{}", truncate(&text, 2500))).with(json!({"program": text})));
+    }
+    let mut full = base;
+    full.push((name.clone(), val, ty.clone()));
+    ctx.evals(1);
+    let with = pipe::instantiate(&tmpl, conv::arguments(&full), false).map_err(|p| Failure::new(format!("panic:{}", crate::run::panic_site(&p)), format!("instantiate panicked: {p}")))?;
+    if let Err(e) = with {
+        return Err(Failure::new("c12:consistent-arguments-rejected", format!("instantiate fails with all parameters supplied: {}\n{}", pipe::last_line(&e), truncate(&text, 2500))).with(json!({"program": text})));
+    }
+    ctx.label("after-main:ok");
+    ctx.nontrivial(digest(&[text.as_bytes()]));
+    ctx.sample(text.len() as u64, || json!({"program": truncate(&text, 900), "late_parameter_type": ty.to_string()}));
+    Ok(())
+}
+
 pub fn streams() -> Vec<Stream> {
-    vec![Stream { name: "two-types", kind: Kind::Tape { cases: |t: Tier| t.pick(20_000, 400_000), max_len: 420, f: s_two_types }, isolate: false }, Stream { name: "params", kind: Kind::Tape { cases: |t: Tier| t.pick(8_000, 200_000), max_len: 420, f: s_params }, isolate: false }]
+    vec![Stream { name: "two-types", kind: Kind::Tape { cases: |t: Tier| t.pick(20_000, 400_000), max_len: 420, f: s_two_types }, isolate: false }, Stream { name: "after-main", kind: Kind::Tape { cases: |t: Tier| t.pick(3_000, 80_000), max_len: 420, f: s_after_main }, isolate: false }, Stream { name: "params", kind: Kind::Tape { cases: |t: Tier| t.pick(8_000, 200_000), max_len: 420, f: s_params }, isolate: false }]
 }
 
 pub fn def() -> PropertyDef {
